@@ -38,12 +38,13 @@ SPEC = {
     'C13': {
         'script': 'b_c13.py', 'split': True,
         'quick': {'seeds': 160, 'cfg': {'policies': ['DEFAULT', 'EDIF'], 'roots_per_function': 6}},
-        'thorough': {'seeds': 2400, 'cfg': {'policies': ['DEFAULT', 'EDIF'], 'roots_per_function': 6}},
-        'rule': ('one case = (netlist, function, root, selection, recursive, key, pattern list, is_case, is_re), evaluated with the fast lookup '
-                 'registered and deregistered; non-trivial = the unfiltered result has >= 2 elements and the matcher keeps a non-empty proper subset'),
+        'thorough': {'seeds': 960, 'cfg': {'policies': ['DEFAULT', 'EDIF'], 'roots_per_function': 6}},
+        'rule': ('one case = (netlist, function, root kind, key, pattern kind), each evaluated under every selection / recursive setting, with '
+                 'is_case True / False and with the fast lookup registered / deregistered; non-trivial = for at least one of these settings the '
+                 'unfiltered result has >= 2 elements and the matcher keeps a non-empty proper subset'),
         'bounds': {'netlist': '2-3 libraries, 2-3 primitive cells, 1-2 mid cells (1-3 instances), one top cell (2-4 instances), ports / cables of width 1-3',
                    'functions': 13, 'root_kinds': 'Netlist, Library, Definition, Instance, Port, Cable, InnerPin, OuterPin, Wire, HRef to instance / port / pin / cable / wire',
-                   'roots_per_function_and_netlist': 6, 'keys': ['.NAME', 'EDIF.identifier', 'user'],
+                   'roots_per_function_and_netlist': {'quick': '6 of the 14 kinds', 'thorough': 'one of each of the 14 kinds'}, 'keys': ['.NAME', 'EDIF.identifier', 'user'],
                    'patterns_per_key': 'from <= 3 present values: exact, case-swapped, prefix*, *suffix, single ?, re.escape (is_re), pairs / duplicates / mixed lists',
                    'is_case': [True, False], 'fast_lookup': ['registered', 'deregistered'], 'filter_callback': 'on the unfiltered query and on 10 % of the pattern queries'},
     },
@@ -59,7 +60,7 @@ SPEC = {
     'C16': {
         'script': 'b_c16.py', 'split': True,
         'quick': {'seeds': 480, 'cfg': {}, 'examples': C16_EXAMPLES},
-        'thorough': {'seeds': 9600, 'cfg': {}, 'examples': C16_EXAMPLES},
+        'thorough': {'seeds': 48000, 'cfg': {}, 'examples': C16_EXAMPLES},
         'rule': ('one case = (netlist source, format, option combination) that composes without raising; non-trivial = the netlist has at least '
                  '20 reachable objects'),
         'bounds': {'generated': '2 libraries, 2-3 primitive cells, 1-2 mid cells, one top cell, <= 4 instances per cell, ports / cables of width 1-3, '
